@@ -334,7 +334,9 @@ func (ex *Exec) invoke(fr *Frame, recv *IfaceV, it types.Type, m *types.Func, ar
 			}
 		}
 	}
-	if recv.Tag.op == "ite" && recv.Tag.args[1].isLit() {
+	// a merge of a known dynamic type with another one: decide each case on its own, whichever of the
+	// two alternatives is the known one (the order of merged branches must not matter)
+	if recv.Tag.op == "ite" && (recv.Tag.args[1].isLit() || recv.Tag.args[2].isLit()) {
 		c := recv.Tag.args[0]
 		ra := &IfaceV{Tag: recv.Tag.args[1], Data: recv.Data}
 		rb := &IfaceV{Tag: recv.Tag.args[2], Data: recv.Data}
